@@ -90,7 +90,7 @@ def main():
         if ov is None:
             print("BUILD (patched) FAILED", msg)
             return 2
-        t = run(["/venv/bin/python", "-m", "pytest", "-q", "-p", "no:cacheprovider", "--deselect", "tests/test_run_phase.py::test_vcf_with_missing_headers", "tests"], cwd=wt, env=env)
+        t = run(["/venv/bin/python", "-m", "pytest", "-q", "-p", "no:cacheprovider", "--deselect", "tests/test_run_phase.py::test_vcf_with_missing_headers"], cwd=wt, env=env)
         tail = t.stdout.strip().splitlines()[-1] if t.stdout.strip() else ""
         meta["ran"].append({"cmd": "pytest (repository suite) on patched tree", "exit": t.returncode, "summary": tail})
         print(f"test suite on patched tree: exit {t.returncode}: {tail}")
